@@ -1,11 +1,12 @@
 """C12 — the call graph contains every call that can happen at run time (engine P).
-Alphabet: 22 dispatch forms (static, function value in variable/field/slice/map/channel/returned, closure, bound method
+Alphabet: 28 dispatch forms (static, function value in variable/field/slice/map/channel/returned, closure, bound method
 value, method expression, interface method with 2 implementations, pointer-receiver implementation, embedded-interface
 promotion, generic instantiation, defer, go, go closure, function parameter, function passed to a deferred/go call,
-interface widening assertion, global initialised in init); bound: all sequences of <=2 (quick) / <=3 (thorough) hops.
+interface widening assertion, global initialised in init, one concrete type converted to two interfaces, one type shared by all hops, receivers kept as map keys - interface / pointer / channel keys, map-typed struct field); bound: all sequences of <=2 (quick) / <=3 (thorough) hops.
 Native: every function announces itself (rt.Enter/Leave keep the dynamic call stack), all valuations. Oracle: every
 executed function is in the analyzer's reachable set; every dynamic (caller, callee) transfer has a call-graph path
-caller->callee through synthetic wrappers only, and callee resolution of the dataflow analysis contains the callee."""
+caller->callee through synthetic wrappers only, both in the analyzer state's call graph (pointer analysis with all values
+queried) and in the stand-alone df.PointerAnalysis.ComputeCallgraph graph (no queries, type tracking optimisation on), and callee resolution of the dataflow analysis contains the callee."""
 import sys
 sys.path.insert(0, '/verif/lib'); sys.path.insert(0, '/verif/checks')
 import vlib, dispfam
@@ -35,7 +36,12 @@ def main(tier):
             if f not in reach:
                 rep.fail(f"{r['sig']} / {f} not reachable", r['atoms'] + ['unreachable', 'fn:' + f],
                          dict(sig=r['sig'], executed=f, reachable=sorted(reach)))
-        edges, res = set(r['edges'] or []), set(r['resolve'] or [])
+        reach_cg = set(r['reach_cg'] or [])
+        for f in executed:
+            if f not in reach_cg:
+                rep.fail(f"{r['sig']} / {f} not reachable in ComputeCallgraph", r['atoms'] + ['unreachable-cg', 'fn:' + f],
+                         dict(sig=r['sig'], executed=f, reachable=sorted(reach_cg)))
+        edges, res, edges_cg = set(r['edges'] or []), set(r['resolve'] or []), set(r['edges_cg'] or [])
         for a, b in calls:
             nev += 1
             ok = True
@@ -43,6 +49,10 @@ def main(tier):
                 ok = False
                 rep.fail(f"{r['sig']} / {a}->{b} no call-graph path", r['atoms'] + ['noedge', f'ev:{a}>{b}'],
                          dict(sig=r['sig'], event=f'{a}>{b}', callgraph_paths=sorted(edges)))
+            if f'{a}>{b}' not in edges_cg:
+                ok = False
+                rep.fail(f"{r['sig']} / {a}->{b} no path in ComputeCallgraph(PointerAnalysis)", r['atoms'] + ['noedge-cg', f'ev:{a}>{b}'],
+                         dict(sig=r['sig'], event=f'{a}>{b}', callgraph_paths=sorted(edges_cg)))
             if f'{a}>{b}' not in res:
                 ok = False
                 rep.fail(f"{r['sig']} / {a}->{b} not in ResolveCallee", r['atoms'] + ['noresolve', f'ev:{a}>{b}'],
